@@ -51,6 +51,12 @@ def u1_problems(s):
             if k < lo or k > hi:
                 out.append(('range', 'code %d outside [%d, %d] of %s' % (k, lo, hi, R.dtype_fxp(*s.fmt()))))
                 break
+    if s.is_complex:
+        # complex objects are outside every property that speaks about limits and dtype spelling except C12 (which has
+        # its own oracle); the library keeps their limits / dtype suffix in step with the value dtype only loosely.
+        if s.n_int != R.n_int_of(s.signed, s.n_word, s.n_frac):
+            out.append(('n_int', 'n_int=%r but n_word-n_frac-sign=%r' % (s.n_int, R.n_int_of(s.signed, s.n_word, s.n_frac))))
+        return [p for p in out if p[0] in ('range', 'n_int')]
     if s.n_int != R.n_int_of(s.signed, s.n_word, s.n_frac):
         out.append(('n_int', 'n_int=%r but n_word-n_frac-sign=%r' % (s.n_int, R.n_int_of(s.signed, s.n_word, s.n_frac))))
     # limits
